@@ -8,7 +8,7 @@ import ast
 import math
 
 from sa.astutil import (str_template, anorm, call_name, calls_in, dotted, norm, walk_no_nested, last_attr,
-                        fact_texts, facts_at, func_params, format_fields, try_fold, literal, FoldError)
+                        fact_texts, facts_at, func_params, enclosing_loops, enclosing_stmt, format_fields, try_fold, literal, FoldError)
 from sa.canon import canon
 from checks import common
 from sa.consteval import eval_init, UNKNOWN
@@ -79,6 +79,14 @@ def mult_operands(node):
     if isinstance(node, ast.BinOp) and isinstance(node.op, ast.Mult):
         return sorted([norm(node.left), norm(node.right)])
     return None
+
+
+def top_stmt(node, fn):
+    """the statement of fn.body that contains node"""
+    cur = node
+    while getattr(cur, '_parent', None) is not None and cur._parent is not fn:
+        cur = cur._parent
+    return cur
 
 
 def run(ctx):
@@ -665,6 +673,24 @@ def run(ctx):
                    and isinstance(n.comparators[0], ast.Constant) and n.comparators[0].value == 'H'
                    and norm(n.left).endswith('.element'))),
            amod, folded[-1] if folded else sp)
+    # ... and the hydrogens a file lists are recognised as hydrogens, whatever
+    # shape their name has (else they stay as bonded heavy atoms and their parent
+    # counts one bond too many: no hydrogens for a complete residue)
+    common.check_element_name_shapes(ctx, 'C17.L3', prog, only=('H',))
+    # the builder starts from a structure without hydrogens *once*: the removal
+    # comes before every protonate_atom call and is not repeated between them
+    # (it empties all conformations, also those already protonated, while their
+    # heavy atoms stay marked as done)
+    pfn = pmod.func('Protonate.protonate')
+    rem = [c for c in calls_in(pfn, nested=False) if last_attr(c) == 'remove_all_hydrogen_atoms']
+    pro = [c for c in calls_in(pfn, nested=False) if last_attr(c) == 'protonate_atom']
+    once = len(rem) == 1 and bool(pro) and not enclosing_loops(rem[0], pfn) \
+        and enclosing_stmt(rem[0]) in pfn.body \
+        and all(pfn.body.index(enclosing_stmt(rem[0])) < pfn.body.index(top_stmt(c, pfn)) for c in pro)
+    ctx.ob('C17.R3', 'protonate:hydrogens-removed-once-before-building', once,
+           'Protonate.protonate removes the listed hydrogens in one unconditional statement in front '
+           'of the loop that builds them (%d removal call(s), %d inside a loop)'
+           % (len(rem), sum(1 for c in rem if enclosing_loops(c, pfn))), pmod, rem[0] if rem else pfn)
     # bond perception feeds the count: record type, residue or chain must not enter
     common.check_pair_routine(ctx, 'C17.L1', prog.mod('bonds'))
     ctx.assume('distance-based bond perception reproduces the templates for residues with regular '
